@@ -242,7 +242,11 @@ def gen_session(rng: random.Random, spec, *, p_invalid=0.0, p_query=0.0, p_reset
             continue
         r = rng.random()
         if r < p_reset:
-            events.append([2])
+            if env_mode and rng.random() < 0.25:
+                events.append([2, 1])       # the episode is restarted with env.dispatcher.reset()
+                stats["env_dispatcher_reset"] = stats.get("env_dispatcher_reset", 0) + 1
+            else:
+                events.append([2])
             tr.reset()
             stats["reset"] += 1
             if rng.random() < p_snapshot:
@@ -324,7 +328,10 @@ def gen_session(rng: random.Random, spec, *, p_invalid=0.0, p_query=0.0, p_reset
         if tr.done() or (target is not None and n_accepted >= target):
             break
         ev = valid_request(rng, tr)
-        if env_mode:
+        if env_mode and rng.random() < 0.08:
+            # dispatched directly on the environment's public dispatcher, between two steps
+            stats["env_direct_dispatch"] = stats.get("env_direct_dispatch", 0) + 1
+        elif env_mode:
             ev = to_env_event(rng, ev)
         elif p_leave and rng.random() < p_leave:
             leavers = [i for i in subs if kinds[i] in (4, 5, 7, 8) and subs.count(i) == 1]
